@@ -668,6 +668,88 @@ func completionAgree(p *core.Prog, r *core.Result, sp *ssa.Package, ctxNamed *ty
 			r.Ok(".COMPLETION-AGREE", p.Pos(sp.Type(tn).Pos()), fmt.Sprintf("gotype.%s: value-completion events agree (%s)", tn, vecString(ref)))
 		}
 	}
+	// COMPLETION-PROPAGATES: some states complete their own value when they are told that their child is
+	// done (a pointer to a container, a skipped value): they pop themselves inside OnChild*Done. Their own
+	// parent then has a completed value as well and must be told - the driver has to repeat the notification
+	// while the unfolder stack keeps shrinking, i.e. the notification sits in a loop.
+	{
+		var selfCompleting []string
+		for _, tn := range names {
+			T := sp.Type(tn).Type()
+			mset := p.SSA.MethodSets.MethodSet(types.NewPointer(T))
+			for _, ev := range []string{"OnChildArrayDone", "OnChildObjectDone"} {
+				sel := mset.Lookup(sp.Pkg, ev)
+				if sel == nil {
+					continue
+				}
+				f := p.SSA.MethodValue(sel)
+				for f != nil && f.Synthetic != "" && len(f.Blocks) == 1 {
+					var inner *ssa.Function
+					for _, in := range f.Blocks[0].Instrs {
+						if call, ok := in.(*ssa.Call); ok {
+							inner = call.Common().StaticCallee()
+						}
+					}
+					if inner == nil || inner == f {
+						break
+					}
+					f = inner
+				}
+				if f == nil {
+					continue
+				}
+				for _, v := range c.summary(f) {
+					if v["unfolder"] < 0 {
+						selfCompleting = append(selfCompleting, tn+"."+ev)
+					}
+				}
+			}
+		}
+		sort.Strings(selfCompleting)
+		r.Stats["self_completing_child_done_handlers"] = len(selfCompleting)
+		for _, pr := range [][2]string{{"OnObjectFinished", "OnChildObjectDone"}, {"OnArrayFinished", "OnChildArrayDone"}} {
+			drv := p.LookupFunc("gotype", "(*unfoldCtx)."+pr[0])
+			if drv == nil {
+				r.Undecided(".COMPLETION-PROPAGATES", "gotype.(*unfoldCtx)."+pr[0], "driver method not found")
+				continue
+			}
+			found, inLoop := false, false
+			for _, b := range drv.Blocks {
+				for _, in := range b.Instrs {
+					call, ok := in.(*ssa.Call)
+					if !ok || !call.Common().IsInvoke() || call.Common().Method.Name() != pr[1] {
+						continue
+					}
+					found = true
+					seen := map[*ssa.BasicBlock]bool{}
+					work := append([]*ssa.BasicBlock{}, b.Succs...)
+					for len(work) > 0 {
+						x := work[len(work)-1]
+						work = work[:len(work)-1]
+						if seen[x] {
+							continue
+						}
+						seen[x] = true
+						if x == b {
+							inLoop = true
+						}
+						work = append(work, x.Succs...)
+					}
+				}
+			}
+			key := core.FuncKey(drv)
+			switch {
+			case !found:
+				r.Undecided(".COMPLETION-PROPAGATES", key, "the driver does not notify the enclosing state at all")
+			case len(selfCompleting) == 0 || inLoop:
+				r.Ok(".COMPLETION-PROPAGATES", p.Pos(drv.Pos()), fmt.Sprintf("%s repeats %s while the unfolder stack keeps shrinking (%d handlers complete their own state in that notification)", key, pr[1], len(selfCompleting)))
+			default:
+				ex := selfCompleting[0]
+				r.Fail(".COMPLETION-PROPAGATES", key+"|once", p.Pos(drv.Pos()), fmt.Sprintf("%s notifies the enclosing state exactly once, but %d child-done handlers (e.g. %s) complete and remove their own state in that notification: the state enclosing THEM is never told that its value is complete (a **T target stays nil, map[string]*T fails with 'expected object value', stack entries leak)", key, len(selfCompleting), ex), "")
+			}
+		}
+	}
+
 	// INIT-BALANCE: an event that removes every unfolder frame its state's
 	// initialiser pushed completes the value; it must then also remove
 	// everything else the initialiser pushed (pointer, value, index, ...).
